@@ -31,6 +31,11 @@ claim("C12",
       "Trusted: Lean kernel, 3 standard axioms, oracle hook + differ. Assumed: SHA-256 collision resistance on the compared pre-images; cmd/go's action ID covers source/tags/GOOS/GOARCH/Go version; import paths contain no '|'.",
       "Lean 4 proof (depends-only-on + pre-image injectivity) + oracle/model differential histories", "DESIGN.md 5/C12")
 
+claim("C13",
+      "map = build is BY CONSTRUCTION in the model (garble map and the compile step call one function, modelled by decideObj/decideIdent; theorems map_eq_build, map_lists_every_renamed); reverse uses a third piece of code, modelled as reversePairs, and Lean 4 theorems show for all packages and names that every renamed function, method, type, struct field and package-level variable, and the import path, has its (obfuscated, original) pair in the reverse table. The content of the property is in the tie, which runs the REAL commands: `garble map ./...` JSON vs. the identifiers of the real build's -debugdir garbled tree (zipped with the original source by a go/ast helper) vs. x/tools objectpath of every defined object (computed independently of commandMap) vs. `garble reverse` applied to every listed name.",
+      "Trusted: Lean kernel, 3 axioms, oracle hook (objectpath dump), identzip helper, generator. The -debugdir garbled tree is taken to be what the compiler received.",
+      "Lean 4 proof (reverse table completeness; map=build by construction) + four-way end-to-end comparison of the real commands", "DESIGN.md 5/C13")
+
 claim("C15",
       "Lean 4 theorems over a model of go/types (mutual inductive Ty with named/alias/generic/struct/func types), Go's identity relation, type-parameter substitution and garble's modified struct hasher: for ALL struct types, identical (tags ignored, aliases transparent) => same struct salt; instantiation with any type arguments keeps the salt; tags never matter; hence corresponding fields of identical structs get the same obfuscated name under any configuration, whichever package computes it. Tie: per run ~360 generated struct pairs over 4 packages (each struct re-declared elsewhere with <=1 perturbation, generic/alias/anonymous/embedded forms); shapes are serialised from go/types itself; the model's identity relation is checked against types.IdenticalIgnoreTags/Identical, its hash against the real typeutil_hash, field names against the real hashWithStruct, and computeFieldToStruct must resolve every field object.",
       "Trusted: Lean kernel, 3 standard axioms, oracle hook (type serialiser) + differ; go/types as the reference for Go's type identity. Interfaces are modelled by method count (generated ones are empty). Conversions are compiled end-to-end only by the e2e tiers.",
